@@ -26,7 +26,10 @@ CustomizeFields == {"relatedResources", "relatedResources.0", "relatedResources.
 FieldsOf(c) == IF c \in {"decorator", "decoratorFinalize"} THEN DecoratorFields ELSE IF c = "customize" THEN CustomizeFields ELSE CompositeFields
 \* every JSON type (with the numeric extremes the statement names) + absence + whole-body classes
 Types == {"null", "missing", "true", "zero", "neg", "huge", "float", "str", "emptyStr", "emptyList", "emptyMap", "listNull", "listStr", "listMap", "mapNum", "mapNull", "deep"}
-BodyClasses == {"empty", "notJson", "topArray", "topNull", "topString", "truncated", "unknownField", "dupField", "http500", "http404", "http302", "http204"}
+BodyClasses == {"empty", "notJson", "topArray", "topNull", "topString", "truncated", "unknownField", "dupField", "http500", "http404", "http302", "http204",
+                \* ETag sequences (etag support on): a REJECTED answer that carries an ETag header and a well-formed body, after which the
+                \* hook answers 304 to any If-None-Match; and the legitimate sequence 200 + ETag, then 304
+                "etagPoison500", "etagPoison404", "etagPoison201", "etagGood"}
 
 VARIABLES cfg, mode, m1, m2, body
 vars == <<cfg, mode, m1, m2, body>>
